@@ -1,6 +1,7 @@
 (* Proofs about the glue between the dependency-file parsers and the build system (Parse/DepsGlue.v):
    any reported error fails the command; every dependency word becomes the key of an absolute path. *)
-From LLB Require Import Base.Bytes Base.BytesFacts Parse.MakeDeps Parse.DepInfo Parse.DepsGlue.
+From LLB Require Import Base.Bytes Base.BytesFacts Parse.MakeDeps Parse.DepInfo Parse.DepsGlue
+  Parse.MakeDepsProofs Parse.DepInfoProofs.
 Local Open Scope N_scope.
 
 (* ---------- success flag ---------- *)
@@ -198,6 +199,76 @@ Proof.
   assert (E : path_append [] word = word).
   { unfold path_append. cbn [last_is_sep is_nil orb]. rewrite Hw. reflexivity. }
   rewrite E. apply make_absolute_relative; assumption.
+Qed.
+
+(* ---------- parser theorems carried through the glue ---------- *)
+
+Definition makefile_style (ign : bool) : deps_style :=
+  if ign then StyleMakefileIgnoringSubsequent else StyleMakefile.
+
+Theorem glue_md_error_fails : forall ign cwd wd files data c p,
+  In (Some data) files -> In (Err c p) (md_parse ign data) ->
+  command_result (makefile_style ign) cwd wd files = CmdFailed.
+Proof.
+  intros ign cwd wd files data c p Hin He. apply (glue_error_fails _ cwd wd files data Hin).
+  exact (md_err_file_has_error ign data c p He).
+Qed.
+
+Theorem glue_di_error_fails : forall cwd wd files data c p,
+  In (Some data) files -> In (DErr c p) (di_parse data) ->
+  command_result StyleDependencyInfo cwd wd files = CmdFailed.
+Proof.
+  intros cwd wd files data c p Hin He. apply (glue_error_fails _ cwd wd files data Hin).
+  exact (di_err_file_has_error data c p He).
+Qed.
+
+(* a Makefile-style dependency file that is not blank and contains no ':' fails the command *)
+Theorem glue_no_colon_fails : forall ign cwd wd files data,
+  In (Some data) files -> ~ In 58 data -> skip_ws data <> [] ->
+  command_result (makefile_style ign) cwd wd files = CmdFailed.
+Proof.
+  intros ign cwd wd files data Hin Hno Hne.
+  destruct (md_has_error_ex _ (md_no_colon_error ign data Hno Hne)) as [c [p He]].
+  exact (glue_md_error_fails ign cwd wd files data c p Hin He).
+Qed.
+
+(* a written file: every path, resolved, becomes a key, and the command succeeds *)
+Theorem glue_written_file : forall cwd wd target paths sep,
+  wf_target target = true -> forallb wf_path paths = true ->
+  process_discovered StyleMakefile cwd wd [Some (md_write target paths sep)] = (map (glue_path cwd wd) paths, true).
+Proof.
+  intros cwd wd t ps sep Ht Hps.
+  cbn [process_discovered process_files process_one]. unfold process_makefile.
+  rewrite (md_roundtrip t ps sep Ht Hps), (md_write_no_error false t ps sep Ht Hps).
+  cbn [negb]. rewrite app_nil_r. reflexivity.
+Qed.
+
+Theorem glue_written_depinfo : forall cwd wd version recs,
+  wf_operand version = true -> wf_recs recs = true ->
+  process_discovered StyleDependencyInfo cwd wd [Some (di_write version recs)] =
+  (flat_map (fun r => match fst r with KInput => [snd r] | _ => [] end) recs, true).
+Proof.
+  intros cwd wd v recs Hv Hr.
+  cbn [process_discovered process_files process_one]. unfold process_depinfo.
+  destruct (di_roundtrip_inputs v recs Hv Hr) as [H1 H2]. rewrite H1, H2.
+  cbn [negb]. rewrite app_nil_r. reflexivity.
+Qed.
+
+(* REFUTED for the dependency-info style: its input paths are used verbatim as node keys
+   (processDependencyInfoDiscoveredDependencies::actOnInput has no counterpart of the resolution that
+   actOnRuleDependency performs), so a relative path reported by a command that runs in a working directory
+   other than the current directory of llbuild names a different file.
+   Witness: cwd [/w], working directory [/w/sub], file  00 v 00 10 h 00  (input [h]): the key is [h], not [/w/sub/h]. *)
+Theorem depinfo_relative_resolution_refuted :
+  exists cwd wd data p,
+    simple_abs cwd = true /\ simple_abs wd = true /\ head_sep p = false /\
+    di_parse data = [Version [118]; Input p] /\
+    process_discovered StyleDependencyInfo cwd wd [Some data] = ([p], true) /\
+    glue_path cwd wd p = [47; 119; 47; 115; 117; 98; 47; 104] /\
+    p <> glue_path cwd wd p.
+Proof.
+  exists [47; 119], [47; 119; 47; 115; 117; 98], [0; 118; 0; 16; 104; 0], [104].
+  vm_compute. repeat split; try reflexivity. discriminate.
 Qed.
 
 (* ---------- non-vacuity ---------- *)
